@@ -232,7 +232,9 @@ func RunSeq(sc SeqScenario) (evs []Ev, inconclusive string) {
 	const T = 5 * time.Second
 	nEmit := int64(0)
 	quiet := func() bool {
-		if in.C("proc.item") < nEmit || in.C("cw.row") < in.C("cw.add") || in.C("gw.row") < in.C("gw.add") {
+		// rows the engine itself reports as dropped at its input will never be processed: the run still comes to rest and the
+		// monitor decides whether the configuration allowed that
+		if in.C("proc.item")+s.GetStats()["input_dropped_count"] < nEmit || in.C("cw.row") < in.C("cw.add") || in.C("gw.row") < in.C("gw.add") {
 			return false
 		}
 		if w != nil {
